@@ -163,11 +163,14 @@ EXHAUSTIVE_IN_THOROUGH = {'end a1 rr', 'end a1 rtr', 'end a1 rrt', 'end a1 rtrt'
                           'end a2 rr', 'end a2 rtr', 'end a2 rrt', 'end a2 rtrt', 'giveup', 'burst',
                           'emit reconnect', 'two producers'}
 
+# the model variant the check runs: the source as it stands after fix commits 748d97f
+# (final_wakes_input) and fee3be8 (recheck_before_raise) = `repaired_all` of SimpleClient.v
+VARIANT = (True, True)
+
 WITNESSES = [
-    # (name, atomic, P, C, schedule, expected bit on the pinned tree) - the witnesses of
-    # C19_timeout_connected_wait_refuted, C19_disconnected_while_buffered_refuted,
-    # C19_disconnected_while_buffered_async_refuted, C19_no_hang_refuted (Simple/SimpleProofs.v: P_j/sched_j,
-    # P_d/sched_d, P_da/sched_da, P_g/sched_g_thread/sched_g_async, each followed by the raising step)
+    # (name, atomic, P, C, schedule, clause that failed before the fix commits): the schedules on which
+    # the source failed before 748d97f / fee3be8 (documented by the `_refuted` theorems about `pinned`).
+    # They are replayed as regression cases: on the repaired source none of them may fail any clause.
     ('timeout_connected_wait_refuted', False, [[('Event', 'a', [1])] + LOSE], [R1], [0, 2, 2, 2, 0, 1], 16),
     ('disconnected_while_buffered_refuted', False, [[('Event', 'a', [1])] + END], [R0], [0, 2, 2, 2, 2, 2, 0, 0], 64),
     ('disconnected_while_buffered_async_refuted', True,
@@ -178,7 +181,7 @@ WITNESSES = [
 
 
 def probe_variant(runner):
-    """Which source text is running?  (selects the model variant)
+    """Which source text is running?  (compared with VARIANT; a source that lost a repair is reported)
     final_wakes_input: the real __disconnect_final handler sets input_event;
     recheck_before_raise: after a timeout of connected_event.wait() receive() looks at the
     buffer again before raising."""
@@ -256,12 +259,18 @@ def collect(chk):
     import multiprocessing
     from vt import common
     cases, meta = [], []
-    fixed = {}
+    fixed = {False: VARIANT, True: VARIANT}
+    probed = {}
     for atomic, runner in ((False, S.run_threads), (True, S.run_async)):
-        fixed[atomic] = probe_variant(runner)
+        probed[atomic] = probe_variant(runner)
+        if probed[atomic] != VARIANT:
+            chk.broken_obligation('%s no longer has the repairs the model assumes: (final_wakes_input, '
+                                  'recheck_before_raise) probed as %s, model runs %s' % (
+                                      'AsyncSimpleClient' if atomic else 'SimpleClient', probed[atomic], VARIANT))
     S.close_loop()
-    chk.extra['variant'] = {'SimpleClient (final_wakes_input, recheck_before_raise)': list(fixed[False]),
-                            'AsyncSimpleClient (final_wakes_input, recheck_before_raise)': list(fixed[True])}
+    chk.extra['variant'] = {'model (final_wakes_input, recheck_before_raise)': list(VARIANT),
+                            'SimpleClient probed': list(probed[False]),
+                            'AsyncSimpleClient probed': list(probed[True])}
     n_err = [0]
 
     def add(name, P, C, rec):
@@ -337,7 +346,7 @@ def run(chk):
     for e in errors:
         chk.broken_obligation('case evaluation failed: ' + e)
 
-    # refutation witnesses must replay on the real classes (as long as the tree is the pinned variant)
+    # the schedules that failed before the fix commits: regression cases, must be clean now
     replayed = {}
     for idx, m in enumerate(meta):
         if m['kind'] != 'witness':
@@ -345,7 +354,8 @@ def run(chk):
         code = codes.get(idx, 0)
         atomic = m['mode'] == 'asyncio'
         replayed[m['scenario']] = {'agrees_with_model': not (code & 1),
-                                   'violates_on_real_class': bool(code & m['expect_bit'])}
+                                   'clause_that_failed_before_the_fix': m['expect_bit'],
+                                   'fails_now': bool(code & m['expect_bit'])}
     chk.extra['witness_replay'] = replayed
 
     best, seen = {}, {}
@@ -401,10 +411,11 @@ def replay(chk, data):
     P = [[tuple(o[:2]) + ((list(o[2]),) if len(o) > 2 else ()) if o[0] == 'Event' else tuple(o) for o in scr]
          for scr in rp['P']]
     C = [tuple(o) for o in rp['C']]
-    fixed = probe_variant(runner)
+    probed = probe_variant(runner)
+    fixed = VARIANT
     r = runner(P, C, rp['schedule'])
     S.close_loop()
-    print('mode=%s (final_wakes_input, recheck_before_raise)=%s' % (rp['mode'], fixed))
+    print('mode=%s (final_wakes_input, recheck_before_raise): model %s, source probed %s' % (rp['mode'], fixed, probed))
     for ch, labels in zip(r.schedule, r.trace):
         print('  choice %d: %s' % (ch, labels))
     print('  final: status=%s producers_done=%s buffer=%s flags(iev,cev,conn,nsup)=%s' % (
@@ -420,3 +431,53 @@ def replay(chk, data):
     if code & 1:
         print('model and implementation disagree on this schedule')
     return 0 if code == 0 else 1
+
+
+# ---------------------------------------------------------------------------------------
+# C14 (asyncio == threaded): SimpleClient vs AsyncSimpleClient on the same scenario and schedule
+# ---------------------------------------------------------------------------------------
+def _parity_obs(r):
+    """Flat list of plain values: outcome of every application call in order, then the final
+    consumer status, buffer, flags (input_event, connected_event, connected, namespace up) and the
+    number of deliveries made by emit()/call()."""
+    out = []
+    for step in r.trace:
+        for l in step:
+            if l[0] == 'Ret':
+                out.append(['returned', l[1]])
+            elif l[0] == 'Raise':
+                out.append(['raised', l[1]])
+            elif l[0] == 'Sent':
+                out.append(['sent'])
+    st = r.status
+    out.append(['status', 'blocked-with-timeout' if st == ('blocked', True) else
+                'blocked' if st == ('blocked', False) else str(st)])
+    out.append(['buffer'] + [x for x in r.buf])
+    out.append(['flags'] + [bool(b) for b in r.flags])
+    out.append(['delivered', int(r.sent)])
+    if r.error:
+        out.append(['driver-error', str(r.error)])
+    return out
+
+
+def parity_traces(rng, n):
+    """n (scenario, schedule) pairs run on BOTH simple clients at the granularity where they are
+    comparable: a schedule is a list of choices (0 application task, 1 timer, 2+i producer i) in
+    which a producer choice runs one whole handler invocation and an application choice runs the
+    task until it is registered in a wait or its call is over.  That is the natural step of the
+    asyncio class; the threaded class is driven with `macro=True` so that it takes the same
+    steps.  Schedules are random maximal walks over the choices enabled on the asyncio class
+    (all choices drawn from rng), replayed verbatim on the threaded class.  Returns
+    [('simple-client', scenario_repr, trace_sync, trace_async)]; identical behaviour gives
+    equal lists."""
+    scs = scenarios(False)
+    out = []
+    try:
+        for k in range(n):
+            name, P, C, _ = scs[rng.randrange(len(scs))] if k >= len(scs) else scs[k]
+            ra = S.random_walk(S.run_async, P, C, rng)
+            rs = S.run_threads(P, C, list(ra.schedule), macro=True)
+            out.append(('simple-client', repr((name, P, C, list(ra.schedule))), _parity_obs(rs), _parity_obs(ra)))
+    finally:
+        S.close_loop()
+    return out
